@@ -193,17 +193,19 @@ func (d *Dir) Load(kind string, id uint64) (*segment.Data, io.Closer, error) {
 }
 
 type limitWriter struct {
-	buf   *bytes.Buffer
-	limit int // -1: unlimited
+	buf    *bytes.Buffer
+	limit  int // bytes accepted before every further write fails
+	failed bool
 }
 
 func (w *limitWriter) Write(p []byte) (int, error) {
-	if w.limit >= 0 && w.buf.Len()+len(p) > w.limit {
+	if w.failed || w.buf.Len()+len(p) > w.limit {
 		n := w.limit - w.buf.Len()
-		if n < 0 {
+		if n < 0 || w.failed {
 			n = 0
 		}
 		w.buf.Write(p[:n])
+		w.failed = true
 		return n, ErrInjected
 	}
 	return w.buf.Write(p)
@@ -218,7 +220,31 @@ func (d *Dir) Persist(kind string, id uint64, w index.WriterTo, closeCh chan str
 		return fmt.Errorf("open %s: resource temporarily unavailable", name)
 	}
 	f := d.fault("persist", kind, id)
-	// always obtain the complete bytes first (they are needed for torn-write images)
+	if f == FaultBeforeByte || f == FaultPartial {
+		// the write error reaches the item writer through the io.Writer it is
+		// given, exactly as with the real directory: what the item writer does
+		// with it decides the outcome
+		limit := 0
+		if f == FaultPartial {
+			limit = 3
+		}
+		var part bytes.Buffer
+		_, werr := w.WriteTo(&limitWriter{buf: &part, limit: limit}, closeCh)
+		data := append([]byte(nil), part.Bytes()...)
+		ev := Event{Kind: "persist", Name: name, Data: data, Old: old, HadOld: had, Wrote: len(data)}
+		if werr != nil {
+			delete(d.Files, name) // cleanup() of the real directory
+			ev.Err = ErrInjected.Error()
+			d.rec(ev)
+			verifmc.Yield("io-error")
+			return werr
+		}
+		// the item writer swallowed the write error: the real directory syncs,
+		// closes and reports success for a file that holds only what was written
+		d.Files[name] = data
+		d.rec(ev)
+		return nil
+	}
 	var full bytes.Buffer
 	_, werr := w.WriteTo(&full, closeCh)
 	data := full.Bytes()
@@ -230,15 +256,8 @@ func (d *Dir) Persist(kind string, id uint64, w index.WriterTo, closeCh chan str
 		d.rec(ev)
 		return werr
 	}
-	switch f {
-	case FaultBeforeByte:
-		ev.Err, ev.Wrote = ErrInjected.Error(), 0
-	case FaultPartial:
-		ev.Err, ev.Wrote = ErrInjected.Error(), len(data)/2
-	case FaultAtSync:
+	if f == FaultAtSync {
 		ev.Err, ev.Wrote = ErrInjected.Error(), len(data)
-	}
-	if ev.Err != "" {
 		delete(d.Files, name) // cleanup() of the real directory
 		d.rec(ev)
 		verifmc.Yield("io-error")
